@@ -688,3 +688,89 @@ func TestC11_Known(t *testing.T) {
 		vt.CheckKnown(e.Signature, e.What, func(tb vt.TB) { c11Judge(tb, c) })
 	}
 }
+
+// TestC11Table enumerates the complete truth table of the enablement rule for one dependency (depth 1): condition form x
+// where and how the condition target is set x flag x declared tags x tag values x source of tags. Exhaustive for that
+// finite space (sharded by index).
+func TestC11Table(t *testing.T) {
+	evid.Extra("rule", "C11 (truth table): one dependency s1 of root, with or without alias; condition in {none, s1.enabled, missing.path, 's1.enabled,flag', 'flag,s1.enabled'}; s1.enabled in {absent, true, false, non-bool} set in the subchart's own defaults, the parent's section or user values; flag in {absent, true, false}; declared tags in {none, [t1], [t1 t2]}; tag values t1, t2 in {absent, true, false, non-bool} set in root defaults or user values: the full product, each case judged like the generated ones.")
+	shard, shards := 0, 1
+	if v := os.Getenv("VERIF_SHARDS"); v != "" {
+		fmt.Sscan(v, &shards)
+		fmt.Sscan(os.Getenv("VERIF_SHARD"), &shard)
+	}
+	vals := []interface{}{nil, true, false, "str"}
+	idx := 0
+	for _, alias := range []string{"", "al"} {
+		for _, cond := range []string{"", "E.enabled", "missing.path", "E.enabled,flag", "flag,E.enabled"} {
+			for _, en := range vals {
+				for _, where := range []string{"own", "parent", "user"} {
+					if en == nil && where != "own" {
+						continue
+					}
+					for _, flag := range vals[:3] {
+						for _, tags := range [][]string{nil, {"t1"}, {"t1", "t2"}} {
+							for _, t1 := range vals {
+								for _, t2 := range vals {
+									if len(tags) < 2 && t2 != nil {
+										continue
+									}
+									if len(tags) < 1 && t1 != nil {
+										continue
+									}
+									for _, tagSrc := range []string{"defaults", "user"} {
+										if t1 == nil && t2 == nil && tagSrc == "user" {
+											continue
+										}
+										idx++
+										if idx%shards != shard {
+											continue
+										}
+										eff := "s1"
+										if alias != "" {
+											eff = alias
+										}
+										dep := &c11Chart{Name: "s1", Alias: alias, Cond: strings.ReplaceAll(cond, "E", eff), Tags: tags, Defaults: map[string]interface{}{"own": "SENT<root/s1#2>"}}
+										root := &c11Chart{Name: "root", Defaults: map[string]interface{}{"own": "SENT<root#1>"}, Deps: []*c11Chart{dep}}
+										user := map[string]interface{}{}
+										if en != nil {
+											switch where {
+											case "own":
+												dep.Defaults["enabled"] = en
+											case "parent":
+												root.Defaults[eff] = map[string]interface{}{"enabled": en}
+											case "user":
+												user[eff] = map[string]interface{}{"enabled": en}
+											}
+										}
+										if flag != nil {
+											user["flag"] = flag
+										}
+										tg := map[string]interface{}{}
+										if t1 != nil {
+											tg["t1"] = t1
+										}
+										if t2 != nil {
+											tg["t2"] = t2
+										}
+										if len(tg) > 0 {
+											if tagSrc == "user" {
+												user["tags"] = tg
+											} else {
+												root.Defaults["tags"] = tg
+											}
+										}
+										c := c11Case{Root: root, User: user}
+										lbls, _ := c11Judge(t, c)
+										evid.Case(append(lbls, "truth-table"), jsonOf(c), cond != "" || len(tags) > 0, c)
+									}
+								}
+							}
+						}
+					}
+				}
+			}
+		}
+	}
+	evid.AddExtraInt("truth_table_cases", idx/shards)
+}
